@@ -208,6 +208,21 @@ def _all_names(fn):
     return {n.id for n in ast.walk(fn) if isinstance(n, ast.Name)} | set(_params(fn))
 
 
+class _Canon(ast.NodeTransformer):
+    """canonical spelling of comparisons: `a > b` -> `b < a`, `a >= b` -> `b <= a` (single-operator comparisons only)"""
+
+    def visit_Compare(self, n):
+        self.generic_visit(n)
+        if len(n.ops) == 1 and isinstance(n.ops[0], (ast.Gt, ast.GtE)):
+            op = ast.Lt() if isinstance(n.ops[0], ast.Gt) else ast.LtE()
+            return ast.copy_location(ast.Compare(left=n.comparators[0], ops=[op], comparators=[n.left]), n)
+        return n
+
+
+def canon(node):
+    return _Canon().visit(node)
+
+
 def normalise_function(fn, rel, qual):
     """in-place normalisation of one function; registers ownership of its nodes"""
     base = baseline().get(rel, {}).get(qual)
@@ -243,6 +258,8 @@ def normalise_function(fn, rel, qual):
         s = _Subst(aliases)
         fn.body = [s.visit(st) for st in fn.body]
         ast.fix_missing_locations(fn)
+    fn.body = [canon(st) for st in fn.body]
+    ast.fix_missing_locations(fn)
     key = (rel, qual)
     CUR_ALIASES[key] = aliases
     for n in ast.walk(fn):
